@@ -184,6 +184,8 @@ def sym_simulate(rec, tm, S, params, vf, init, jit=True, cap=64, base=(), additi
         kw["additional_targets"] = additional_targets
     if seed is not None:
         kw["seed"] = seed
+    elif any(hasattr(f, "_stochastic_info") for f in tm.model.functions.values()):
+        kw["seed"] = S.int("seed")  # symbolic seed: draws become arbitrary uniforms per key
     if target == "simulate":
         kw["vf_arr_list"] = vf
 
